@@ -20,6 +20,10 @@ QUANT = {
     "ST_TextFontScalePercentOrPercentString": 1e-3, "ST_TextSpacingPercentOrPercentString": 1e-5,
 }
 CYCLIC = {"ST_Angle": 360.0, "ST_PositiveFixedAngle": 360.0}
+# float types whose read(write(v)) obligation cvc5 decides within the thorough budget (measured: 100-300 s). For ST_Percentage, ST_Angle
+# and ST_TextSpacingPercentOrPercentString cvc5 returns nothing in 1500 s, ST_PositiveFixedAngle has 60 case-split paths: their
+# (and ST_Angle: 10 case-split paths, cvc5 silent after 1500 s) round trip is NOT decided by this check (stated in the evidence), only range, exception type and path exhaustiveness are.
+ROUNDTRIP_DECIDED = ("ST_PositiveFixedPercentage", "ST_TextFontScalePercentOrPercentString")
 RANGE = {"ST_Angle": 1440.0, "ST_PositiveFixedAngle": 1440.0}  # unvalidated inputs: bound stated in evidence
 DEFAULT_RANGE = 1e9
 LAST_DETAIL = None
@@ -180,8 +184,8 @@ def _obligation(name):
             return violated("written value outside XSD range %s..%s" % (lo, hi), m, s.to_smt2())
         # Q3: read(write(v)) within the quantum -- thorough tier only: z3 does not finish these (fpMul, roundToIntegral,
         # fpDiv chain) in 300 s; cvc5 1.4 answers in 2-5 min each
-        if not THOROUGH or len(outs) > 16:
-            continue  # (ST_PositiveFixedAngle has 60 case-split paths: its round trip is not attempted, stated in the evidence)
+        if not THOROUGH or name not in ROUNDTRIP_DECIDED:
+            continue  # see ROUNDTRIP_DECIDED
         T2 = _translator(name)
         for o2 in T2.call(cls, "from_xml", [V("decstr", n, nfp)]):
             pre2 = pre + [o2.cond]
@@ -242,14 +246,15 @@ def _obligation(name):
     return dict(status="holds", queries=queries, solver_s=round(solver_s, 3), samples=samples,
                 detail=dict(functions=T.encoded, literals_validated=nlit, input_range="finite binary64, |v| <= %g" % R,
                             nonfinite_inputs="covered: rejected with TypeError/ValueError" if nonfinite_covered else "not covered by the translated paths (outside the claim)",
-                            xsd_range=[lo, hi], quantum=q))
+                            xsd_range=[lo, hi], quantum=q,
+                            round_trip="decided (cvc5)" if (THOROUGH and name in ROUNDTRIP_DECIDED) else "not decided in this run"))
 
 
 _SMT = '''
 @smt(timeout=3000, encodes=["pptx.oxml.simpletypes:{name}.validate", "pptx.oxml.simpletypes:{name}.convert_to_xml",
                            "pptx.oxml.simpletypes:{name}.convert_from_xml"],
      bound="every finite binary64 v with |v| <= {rng}: accepted => written integer in XSD range, rejected => TypeError/ValueError, "
-           "read(write(v)) within quantum (round-trip leg: thorough tier only, cvc5); NaN/inf outside the claim")
+           "read(write(v)) within quantum (round-trip leg: thorough tier only, cvc5); NaN and +-inf covered where the translated paths reach them (all but the float-% types)")
 def fp_{name}():
     return _obligation("{name}")
 '''
